@@ -90,8 +90,15 @@ def run_followup(case):
         zero = lambda: W.profile(lat_kind='zero', list_order='sorted')     # noqa
         r0 = W.init(client, case['settings'], seq, profile=zero())
         s1 = W.snapshot(client, [src], seq, profile=zero())
-        if not r0.ok or not s1.ok:
-            raise RuntimeError(f'set-up failed in harness: {r0.outcome()} {s1.outcome()} {s1.exc!r}')
+        for name, rr in (('init', r0), ('snapshot', s1)):
+            # a fault-free sequential command has no reason to fail or hang
+            if rr.hang is not None:
+                viol.append({'cls': 'hang', 'sig': {'phase': name, 'run': 'sequential'}, 'msg': f'sequential fault-free {name} did not terminate: {rr.hang}'})
+                return _result(W, viol, probes, case)
+            if not rr.ok:
+                viol.append({'cls': 'spurious-error', 'sig': {'phase': name, 'run': 'sequential', 'exc': type(rr.exc).__name__},
+                             'msg': f'sequential fault-free {name} failed: {rr.outcome()} {rr.exc!r}'})
+                return _result(W, viol, probes, case)
         want = gen.read_tree(src)
         rng = substream(case['sched_seed'], 'followup')
         extra = src / 'added-later.bin'
